@@ -365,11 +365,52 @@ class Check(Property):
                 v.append(f"{tag}: got {r!r}, expected the quantity in the given unit")
         return v
 
+    def fixed_probes(self):
+        """the delta reading of offset units in compound expressions applies when asked for (as_delta None -> the registry default
+        True, or True) and not when it is switched off"""
+        v = []
+        u = regs.fresh("float")
+        for expr_, keys in (("degC/meter", ("degree_Celsius", "meter")), ("degF*second", ("degree_Fahrenheit", "second")),
+                            ("degC**2", ("degree_Celsius",)), ("kilometer/degree_Celsius", ("kilometer", "degree_Celsius"))):
+            for asd in (None, True, False):
+                try:
+                    got = set(u.parse_units(expr_, as_delta=asd)._units)
+                except Exception as exc:  # noqa: BLE001
+                    v.append(f"C06 parse_units({expr_!r}, as_delta={asd}) raised {type(exc).__name__}")
+                    continue
+                want = {("delta_" + k if (asd is not False and k.startswith("degree_")) else k) for k in keys}
+                if got != want:
+                    v.append(f"C06 parse_units({expr_!r}, as_delta={asd}) names {sorted(got)}, expected {sorted(want)}")
+        # floor division, modulo and divmod follow the rule of true division: refused for offset scales, or through base units
+        # in autoconvert mode (so the result does not depend on the scale the temperatures are written in)
+        import operator
+        for auto in (False, True):
+            r = regs.fresh("float", autoconvert_offset_to_baseunit=auto)
+            a, b = r.Quantity(10.0, "degree_Celsius"), r.Quantity(5.0, "degree_Celsius")
+            ak, bk = r.Quantity(283.15, "kelvin"), r.Quantity(278.15, "kelvin")
+            for name, op in (("//", operator.floordiv), ("%", operator.mod), ("divmod", divmod), ("//=", operator.ifloordiv), ("%=", operator.imod)):
+                def run(x, y):
+                    try:
+                        res = op(r.Quantity(x.magnitude, x.units), y)
+                        parts = res if isinstance(res, tuple) else (res,)
+                        return ("ok", tuple(round(float(p_.to_root_units().magnitude), 9) for p_ in parts))
+                    except Exception as exc:  # noqa: BLE001
+                        return ("err", type(exc).__name__)
+                got, ref = run(a, b), run(ak, bk)
+                if not auto and got != ("err", "OffsetUnitCalculusError"):
+                    v.append(f"C06 10 degC {name} 5 degC without autoconvert: {got}, OffsetUnitCalculusError expected (as for /)")
+                if auto and got != ref:
+                    v.append(f"C06 10 degC {name} 5 degC in autoconvert mode: {got}; the same temperatures in kelvin give {ref}")
+        return v
+
     def oracle_log(self, c):
-        """logarithmic units against the defining map x_lin = scale * logbase ** (x / logfactor), with scale, logbase and
+        """(also runs the fixed probes once) logarithmic units against the defining map x_lin = scale * logbase ** (x / logfactor), with scale, logbase and
         logfactor read from the definition file by the independent reader: scalar and array magnitudes, functional and
         in-place conversions, log -> linear -> log and log -> log"""
         v = []
+        if not getattr(self, "_fixed_done", False):
+            self._fixed_done = True
+            v += self.fixed_probes()
         import numpy as np
         u = regs.ureg("float", autoconvert_offset_to_baseunit=True)
         P = regs.pools()
